@@ -12,6 +12,25 @@ use crate::files::{count_blocks, Population};
 use crate::query::{check_query, scan_queries, CursorMode, Query};
 
 /// One file: write, open, metadata, six scans. Ok(blocks) or Err((kind, message)).
+/// A sink that only hands bytes on when it is flushed (like a BufWriter): what was written but
+/// never flushed is lost.
+#[derive(Default)]
+pub struct BufSink {
+    pending: Vec<u8>,
+    pub flushed: Vec<u8>,
+}
+
+impl std::io::Write for BufSink {
+    fn write(&mut self, buf: &[u8]) -> std::io::Result<usize> {
+        self.pending.extend_from_slice(buf);
+        Ok(buf.len())
+    }
+    fn flush(&mut self) -> std::io::Result<()> {
+        self.flushed.append(&mut self.pending);
+        Ok(())
+    }
+}
+
 pub fn roundtrip(spec: &FileSpec) -> Result<usize, (String, String)> {
     let entries = spec.entries.build();
     let bytes = write_file(&spec.cfg, &entries).map_err(|e| ("write".to_string(), e))?;
@@ -40,18 +59,26 @@ pub fn roundtrip(spec: &FileSpec) -> Result<usize, (String, String)> {
     // the other ways of building and finishing a writer produce the same file
     {
         let alt = crate::common::guarded(|| -> Result<Vec<u8>, String> {
-            let mut sink = Vec::new();
+            // a borrowed buffering sink: finish() must have pushed everything through
+            let mut sink = BufSink::default();
             let mut w = crate::common::writer_builder(&spec.cfg).build(&mut sink);
             for (k, v) in &entries {
                 w.insert(k, v).map_err(|e| e.to_string())?;
             }
             w.finish().map_err(|e| e.to_string())?;
-            Ok(sink)
+            Ok(sink.flushed)
         })
         .map_err(|p| ("write".to_string(), format!("build(&mut Vec) + finish(): {p}")))?
         .map_err(|e| ("write".to_string(), format!("build(&mut Vec) + finish(): {e}")))?;
         if alt != bytes {
-            return Err(("write".into(), "WriterBuilder::build(&mut Vec) + finish() produces different bytes than memory() + into_inner()".into()));
+            return Err(("write".into(), "WriterBuilder::build(&mut buffering sink) + finish() leaves different bytes in the sink than memory() + into_inner() returns (unflushed or different output)".into()));
+        }
+        // a sink accepting short, interrupted writes receives the same file
+        if entries.len() >= 3 || spec.cfg.index_levels >= 2 {
+            let short = crate::common::write_file_short(&spec.cfg, &entries).map_err(|e| ("write".to_string(), format!("through a short-writing sink: {e}")))?;
+            if short != bytes {
+                return Err(("write".into(), "a sink accepting short and interrupted writes received different bytes than a Vec sink".into()));
+            }
         }
     }
     // the convenience constructors carry the defaults themselves
